@@ -158,11 +158,28 @@ def stress_plan(variants, thorough):
     for v in variants:
         scale = 4 if v == "sim" else 1
         plan.append((v, "counter", [n, it // scale]))
+        plan.append((v, "hcounter", [n, it // (2 * scale)]))        # shadow holder count: any overlap, not only a lost update
+        plan.append((v, "twolocks", [3, it // (4 * scale)]))        # two objects, alone and nested
         if thorough and v != "sim":
             # three or more threads inside lock at once (two spinning while one holds): hand-off defects need it
             plan.append((v, "counter", [3, it // scale]))
             plan.append((v, "counter", [16, it // (4 * scale)]))
+        if v == "c11":
+            # the library is built by gcc: the same runs uninstrumented (value oracles only)
+            plan.append((v, "counter", [n, it], "plain"))
+            plan.append((v, "hcounter", [n, it], "plain"))
     plan.append(("c11", "mcounter", [n, it // 4]))          # the posix mutex itself
+    plan.append(("c11", "mtwolocks", [3, it // 8]))
+    return plan
+
+
+def quick_plan(variants):
+    """real threads in every run (a few seconds): exclusion, two objects, the mutex"""
+    plan = []
+    for v in variants:
+        scale = 4 if v == "sim" else 1
+        plan += [(v, "hcounter", [4, 40000 // scale]), (v, "counter", [3, 30000 // scale]), (v, "twolocks", [3, 15000 // scale])]
+    plan += [("c11", "hcounter", [4, 100000], "plain"), ("c11", "mcounter", [4, 20000]), ("c11", "mtwolocks", [3, 10000])]
     return plan
 
 
@@ -212,6 +229,8 @@ def run(chk):
     chk.cov["exhaustive_small_scope"] = {"single_thread_sequences_up_to": depth, "sequences": nseq,
                                          "scripted": "all (op, code)^2 after every init code"}
     need_search = (not (proof_ok and driver_ok)) or corr is not None or thm is not None
+    if not (thorough or need_search):
+        found = ac.stress_campaign(chk, cfg, "C01", quick_plan(["c11", "sync", "sim"]), 60, "real-thread run") or found
     if thorough or (need_search and not found):
         # a broken proof leaves the search as the only source of a concrete input: it gets the thorough plan
         found = ac.stress_campaign(chk, cfg, "C01", stress_plan(["c11", "sync", "sim"], thorough or need_search), 240 if thorough else 90,
